@@ -11,7 +11,7 @@ PKG=${1:-pkg/yang}; FROM=${2:-0}; TO=${3:-999999}
 # FAMILY=2 uses the type-aware generator (checker/mutgen2: swapped sibling fields / arguments / statements, deleted switch
 # cases, error results replaced by nil); ids of the two families are unrelated.
 FAMILY=${FAMILY:-1}
-if [ "$FAMILY" = 2 ]; then N=$(/verif/bin/mutgen2 -repo /repo -pkg ./$PKG -list | wc -l); else N=$(/verif/bin/mutgen -dir /repo/$PKG -list | wc -l); fi
+if [ "$FAMILY" != 1 ]; then N=$(/verif/bin/mutgen2 -repo /repo -pkg ./$PKG -family $FAMILY -list | wc -l); else N=$(/verif/bin/mutgen -dir /repo/$PKG -list | wc -l); fi
 [ $TO -ge $N ] && TO=$((N-1))
 run_range() {
   w=$1; PKG=$2; FROM=$3; TO=$4; STEP=$5
@@ -19,7 +19,7 @@ run_range() {
   flock /tmp/gy-st.lock /verif/tools/scratch.sh "$D" >/dev/null 2>&1 || exit 1
   for ((i=FROM+w; i<=TO; i+=STEP)); do
     git -C "$D" checkout -q -- . 2>/dev/null
-    if [ "$FAMILY" = 2 ]; then desc=$(/verif/bin/mutgen2 -repo "$D" -pkg ./$PKG -apply $i 2>/dev/null) || { echo "ERROR $PKG $i"; continue; }
+    if [ "$FAMILY" != 1 ]; then desc=$(/verif/bin/mutgen2 -repo "$D" -pkg ./$PKG -family $FAMILY -apply $i 2>/dev/null) || { echo "ERROR $PKG $i"; continue; }
     else desc=$(/verif/bin/mutgen -dir "$D/$PKG" -apply $i 2>/dev/null) || { echo "ERROR $PKG $i"; continue; }; fi
     if ! (cd "$D" && go build ./... ) >/dev/null 2>&1; then echo "NOBUILD $PKG $i $desc"; continue; fi
     if ! (cd "$D" && timeout 120 go test -vet=off -count=1 ./... ) >/dev/null 2>&1; then
